@@ -5,7 +5,6 @@
 # granted to it by virtue of its status as an intergovernmental organisation
 # nor does it submit to any jurisdiction.
 
-from operator import attrgetter
 from pathlib import Path
 import networkx as nx
 
@@ -92,8 +91,21 @@ class Lib:
 
         logger.info(f'Building {self} (workers={workers})')
 
+        # Map each module defined in one of our source objects to that object, so
+        # that a dependency is resolved to the object that actually provides the
+        # module, even if the module name differs from the file name
+        providers = {}
+        for obj in self.objs:
+            if obj.source_path:
+                for module in obj.modules:
+                    providers.setdefault(module.lower(), obj.name)
+
+        def _dependencies(obj):
+            deps = (providers.get(dep.lower(), dep.lower()) for dep in obj.dependencies)
+            return tuple(dict.fromkeys(dep for dep in deps if dep != obj.name))
+
         # Generate the dependncy graph implied by .mod files
-        dep_graph = builder.get_dependency_graph(self.objs, depgen=attrgetter('dependencies'))
+        dep_graph = builder.get_dependency_graph(self.objs, depgen=_dependencies)
 
         def _build_objs(queue=None):
             # Traverse the dependency tree in reverse topological order
